@@ -182,8 +182,8 @@ def read_versions(repo):
 
 # ------------------------------------------------------------------------------------- the .v file
 
-def render(published, pub_files, generated, gen_files, versions) -> str:
-    defs: dict[str, str] = {}      # canonical text -> constant name
+def render(published, pub_files, generated, gen_files, versions, defs_out=None) -> str:
+    defs: dict[str, str] = {} if defs_out is None else defs_out     # canonical text -> constant name
     body = []
 
     def schema_const(name, s):
@@ -226,8 +226,15 @@ def regenerate(repo, coq_dir, workdir):
     published, pub_files = read_published(repo)
     generated, gen_files = run_generate(repo, workdir)
     versions = read_versions(repo)
-    text = render(published, pub_files, generated, gen_files, versions)
+    defs: dict[str, str] = {}
+    text = render(published, pub_files, generated, gen_files, versions, defs)
     path = os.path.join(coq_dir, "gen", "Schemas.v")
+    same = _write_if_changed(path, text)
+    return path, {"published": published, "generated": generated, "versions": versions,
+                  "published_files": pub_files, "generated_files": gen_files, "changed": not same, "defs": defs}
+
+
+def _write_if_changed(path, text):
     os.makedirs(os.path.dirname(path), exist_ok=True)
     try:
         same = open(path).read() == text
@@ -238,8 +245,143 @@ def regenerate(repo, coq_dir, workdir):
         with open(tmp, "w") as f:
             f.write(text)
         os.replace(tmp, path)
-    return path, {"published": published, "generated": generated, "versions": versions,
-                  "published_files": pub_files, "generated_files": gen_files, "changed": not same}
+    return same
+
+
+# ------------------------------------------------------------------------------------- rebuild ORDERS (C17 only)
+# scripts/generate_schema.py runs ONE order of the four (root, configuration) rebuilds; what a rebuild defines must
+# not depend on what was rebuilt before it in the process.  coq/gen/SchemaOrders.v holds, for a FIXED set of
+# histories (it must not depend on tier or seed: the file is shared state), the schema `write_schema` of the
+# checkout writes after every step, each history in its own fresh process.  gen/Schemas.v is not touched by this
+# (C03 regenerates it too and must obtain the same text).
+
+STEPS = [("testing", "strict"), ("testing", "lax"), ("hugr", "strict"), ("hugr", "lax")]      # generate_schema.py's order
+STEP_PREFIX = {("hugr", "strict"): "hugr_schema_strict", ("hugr", "lax"): "hugr_schema",
+               ("testing", "strict"): "testing_hugr_schema_strict", ("testing", "lax"): "testing_hugr_schema"}
+ROOT_NAME = {"hugr": "SerialHugr", "testing": "TestingHugr"}
+
+
+def euler_circuit(nodes, start):
+    """Hierholzer on the complete digraph with loops: every ordered pair (a, b), a == b included, occurs as two
+    consecutive steps exactly once (len = |nodes|^2 + 1)."""
+    adj = {a: list(nodes) for a in nodes}
+    stack, circ = [start], []
+    while stack:
+        v = stack[-1]
+        if adj[v]:
+            stack.append(adj[v].pop())
+        else:
+            circ.append(stack.pop())
+    circ.reverse()
+    return circ
+
+
+def order_runs():
+    ts, tl, hs, hl = STEPS
+    runs = [[s] for s in STEPS]                        # each pair alone in a fresh process: the reference
+    runs.append([hl, hs, tl, ts])                      # generate_schema.py's order reversed
+    runs.append([ts, hs, tl, hl])                      # one configuration at a time, testing root first
+    runs.append([hs, ts, hl, tl])                      # one configuration at a time, HUGR root first
+    runs.append(euler_circuit(STEPS, ts))              # all 16 ordered pairs of consecutive steps
+    runs.append(euler_circuit(list(reversed(STEPS)), hs))
+    return runs
+
+
+def run_order(repo, workdir, steps):
+    out = tempfile.mkdtemp(prefix="gen-order-", dir=workdir)
+    prog = os.path.join(os.path.dirname(os.path.dirname(os.path.abspath(__file__))), "c17", "seq_schema.py")
+    p = subprocess.run([sys.executable, prog, repo, out, json.dumps(steps)], env=_env(repo),
+                       stdout=subprocess.PIPE, stderr=subprocess.STDOUT, text=True, timeout=600)
+    if p.returncode != 0:
+        raise TranslatorError("write_schema in the order %r failed:\n%s" % (steps, p.stdout[-2000:]))
+    files = json.loads(p.stdout.strip().splitlines()[-1])
+    if len(files) != len(steps):
+        raise TranslatorError("order %r: %d files for %d steps" % (steps, len(files), len(steps)))
+    res = []
+    for (fam, mode), fn in zip(steps, files):
+        m = FILE_RE.match(os.path.basename(fn))
+        if not m or m.group(1) != STEP_PREFIX[(fam, mode)]:
+            raise TranslatorError("order %r: step (%s, %s) wrote %s" % (steps, fam, mode, os.path.basename(fn)))
+        res.append({"step": [fam, mode], "version": m.group(2), "schema": load_json(fn)})
+    return res
+
+
+def expected_py(published, state, fam, mode):
+    """Python mirror of SchemaSeq.expected (reports and searches only; the verdict is Coq's)."""
+    e = dict(published[STEP_PREFIX[(fam, mode)]])
+    e["$defs"] = dict(e["$defs"])
+    subst = []
+    for g in ("hugr", "testing"):
+        s = state.get(g)
+        if g != fam and s is not None:
+            other = published[STEP_PREFIX[(g, s)]]["$defs"]
+            if ROOT_NAME[g] in e["$defs"] and ROOT_NAME[g] in other:
+                e["$defs"][ROOT_NAME[g]] = other[ROOT_NAME[g]]
+                subst.append(ROOT_NAME[g])
+    return e, subst
+
+
+def render_orders(defs, runs) -> str:
+    """runs: list of lists of {"step", "schema"}; `defs` = text -> constant name of gen/Schemas.v (shared)."""
+    body, consts, names = [], [], {}
+    local: dict[str, str] = {}
+
+    def schema_const(s):
+        key = json.dumps(s, ensure_ascii=False)
+        if key in names:
+            return names[key]
+        name = "order_schema_%d" % len(names)
+        check_keywords(s, name)
+        if not isinstance(s, dict) or "$defs" not in s or not isinstance(s["$defs"], dict):
+            raise TranslatorError(name + ": top level must be an object with $defs")
+        ents = []
+        for k, v in s.items():
+            if k == "$defs":
+                ds = []
+                for dn, dv in v.items():
+                    dk = json.dumps(dv, ensure_ascii=False)
+                    if dk in defs:
+                        ref = defs[dk]
+                    else:
+                        if dk not in local:
+                            local[dk] = "od%d" % len(local)
+                            body.append("Definition %s : json := %s." % (local[dk], gjson(dv)))
+                        ref = local[dk]
+                    ds.append("(%s, %s)" % (gstring(dn), ref))
+                ents.append('("$defs", JObj [\n  ' + ";\n  ".join(ds) + "])")
+            else:
+                ents.append("(%s, %s)" % (gstring(k), gjson(v)))
+        consts.append("Definition %s : json := JObj [%s]." % (name, ";\n ".join(ents)))
+        names[key] = name
+        return name
+
+    fam = {"hugr": "FHugr", "testing": "FTesting"}
+    mode = {"strict": "true", "lax": "false"}
+    rs = []
+    for run in runs:
+        items = ["((%s, %s), %s)" % (fam[x["step"][0]], mode[x["step"][1]], schema_const(x["schema"])) for x in run]
+        rs.append("  [" + "; ".join(items) + "]")
+    head = ("(* GENERATED by harness/translators/schema.py (C17) on every check run - do not edit.\n"
+            "   The schema scripts/generate_schema.py's write_schema writes after every step of a history of\n"
+            "   (root, configuration) rebuilds; one fresh process per history. *)\n"
+            "From Coq Require Import List ZArith String.\nImport ListNotations.\n"
+            "From HV Require Import model.Schema model.SchemaSeq gen.Schemas.\nOpen Scope string_scope.\nOpen Scope Z_scope.\n\n")
+    tail = "\nDefinition order_runs : list (list (step * json)) := [\n" + ";\n".join(rs) + "\n].\n"
+    return head + "\n".join(body) + "\n\n" + "\n".join(consts) + "\n" + tail
+
+
+def regenerate_orders(repo, coq_dir, workdir, info, jobs=4):
+    """Writes coq/gen/SchemaOrders.v; returns (path, runs) with the parsed schemas for extra()."""
+    from concurrent.futures import ThreadPoolExecutor
+    hist = order_runs()
+    with ThreadPoolExecutor(max_workers=max(1, jobs)) as ex:      # longest histories first; results in the fixed order
+        futs = {i: ex.submit(run_order, repo, workdir, hist[i])
+                for i in sorted(range(len(hist)), key=lambda i: -len(hist[i]))}
+        runs = [futs[i].result() for i in range(len(hist))]
+    text = render_orders(info["defs"], runs)
+    path = os.path.join(coq_dir, "gen", "SchemaOrders.v")
+    _write_if_changed(path, text)
+    return path, runs
 
 
 if __name__ == "__main__":
